@@ -71,10 +71,64 @@ def eq(a, b):
     return [a - b, b - a]
 
 
-def fm_infeasible(cons, limit=4000):
-    """True iff the conjunction of `e <= 0` constraints has no rational solution"""
-    cons = [c for c in cons]
-    # quick constant check
+def _key(c):
+    return tuple(sorted(c.c.items()))
+
+
+def _simplify(work):
+    """keep, for identical left-hand sides, only the strongest constraint"""
+    best = {}
+    for c in work:
+        k = _key(c)
+        if k not in best or c.k > best[k].k:
+            best[k] = c
+    return list(best.values())
+
+
+def _gauss(work):
+    """substitute away variables fixed by equalities (pairs e <= 0 and -e <= 0)"""
+    changed = True
+    while changed:
+        changed = False
+        idx = {}
+        for c in work:
+            idx[(_key(c), c.k)] = c
+        for c in work:
+            if not c.c:
+                continue
+            neg = c.scale(-1)
+            if (_key(neg), neg.k) in idx:
+                # c == 0 : solve for one symbol
+                s0 = min(c.c, key=lambda x: (abs(c.c[x]) != 1, x))
+                a = c.c[s0]
+                # s0 = -(rest)/a
+                rest = Lin({k: v for k, v in c.c.items() if k != s0}, c.k).scale(Fraction(-1) / a)
+                new = []
+                for d in work:
+                    if s0 in d.c:
+                        co = d.c[s0]
+                        e = Lin({k: v for k, v in d.c.items() if k != s0}, d.k) + rest.scale(co)
+                        new.append(e)
+                    else:
+                        new.append(d)
+                work = []
+                for d in new:
+                    if d.is_const():
+                        if d.k > 0:
+                            return None
+                    else:
+                        work.append(d)
+                work = _simplify(work)
+                changed = True
+                break
+    return work
+
+
+def fm_infeasible(cons, limit=400, focus=None):
+    """True iff the conjunction of `e <= 0` constraints has no rational solution.
+    focus: symbols of interest; only constraints connected to them are considered (cone of
+    influence) - dropping constraints is sound for proving infeasibility only in the sense that it
+    can make us miss a proof, never invent one."""
     work = []
     for c in cons:
         if c.is_const():
@@ -82,10 +136,27 @@ def fm_infeasible(cons, limit=4000):
                 return True
         else:
             work.append(c)
+    if focus is not None:
+        syms = set(focus)
+        sel = []
+        pool = list(work)
+        changed = True
+        while changed:
+            changed = False
+            for c in list(pool):
+                if c.syms() & syms:
+                    sel.append(c)
+                    syms |= c.syms()
+                    pool.remove(c)
+                    changed = True
+        work = sel
+    work = _simplify(work)
+    work = _gauss(work)
+    if work is None:
+        return True
     syms = set()
     for c in work:
         syms |= c.syms()
-    # eliminate symbols one by one (fewest products first)
     while syms:
         best, bestcost = None, None
         for s in syms:
@@ -102,7 +173,6 @@ def fm_infeasible(cons, limit=4000):
         new = []
         for p in pos:
             for n in neg:
-                # p: a*s + P <= 0 (a>0) ; n: -b*s + N <= 0 (b>0)  =>  b*P + a*N <= 0
                 a, b = p.c[s], -n.c[s]
                 r = p.scale(b) + n.scale(a)
                 r.c.pop(s, None)
@@ -111,52 +181,80 @@ def fm_infeasible(cons, limit=4000):
                         return True
                 else:
                     new.append(r)
-        work = rest + new
-        # dedupe
-        seen = set()
-        w2 = []
-        for c in work:
-            h = (tuple(sorted(c.c.items())), c.k)
-            if h not in seen:
-                seen.add(h)
-                w2.append(c)
-        work = w2
+        work = _simplify(rest + new)
         if len(work) > limit:
             return False    # give up: not proved
     return False
 
 
+_MEMO = {}
+
+
 def entails(facts, goal):
     """facts |= goal   where goal is a constraint e <= 0"""
+    key = (frozenset((tuple(sorted(c.c.items())), c.k) for c in facts), (tuple(sorted(goal.c.items())), goal.k))
+    r = _MEMO.get(key)
+    if r is None:
+        if len(_MEMO) > 200000:
+            _MEMO.clear()
+        r = _MEMO[key] = _entails(facts, goal)
+    return r
+
+
+def _entails(facts, goal):
     # facts and not goal:  e >= 1  i.e.  1 - e <= 0
     neg = Lin.const(1) - goal
-    return fm_infeasible(list(facts) + [neg])
+    return fm_infeasible(list(facts) + [neg], focus=neg.syms() or None)
 
 
 def find_model(cons, syms, box=range(0, 41), extra=(), max_try=400000):
-    """small non-negative integer model of the constraints, or None (bounded search)"""
-    import itertools
-    syms = sorted(syms)
-    if len(syms) > 5:
+    """small non-negative integer model of the constraints, or None (bounded depth-first search
+    over a candidate set made of 0..40 and the constants occurring in the constraints, +-1)"""
+    syms = sorted(set(syms) | set().union(*[c.syms() for c in cons]) if cons else set(syms))
+    if len(syms) > 7:
         return None
-    tried = 0
-    vals = list(box) + list(extra)
-    for combo in itertools.product(vals, repeat=len(syms)):
-        tried += 1
-        if tried > max_try:
-            return None
-        m = dict(zip(syms, combo))
-        ok = True
-        for c in cons:
-            v = c.k
-            for s, co in c.c.items():
-                if s not in m:
+    vals = set(box) | set(extra)
+    for c in cons:
+        k = abs(int(c.k))
+        for d in (-2, -1, 0, 1, 2):
+            if 0 <= k + d <= 1 << 20:
+                vals.add(k + d)
+    vals = sorted(vals)
+    # order symbols: most constrained first
+    order = sorted(syms, key=lambda s_: -sum(1 for c in cons if s_ in c.c))
+    by_last = {}
+    pos = {s_: i for i, s_ in enumerate(order)}
+    for c in cons:
+        if not c.c:
+            if c.k > 0:
+                return None
+            continue
+        last = max(pos[s_] for s_ in c.c)
+        by_last.setdefault(last, []).append(c)
+    tried = [0]
+    m = {}
+
+    def rec(i):
+        if i == len(order):
+            return True
+        for v in vals:
+            tried[0] += 1
+            if tried[0] > max_try:
+                return False
+            m[order[i]] = v
+            ok = True
+            for c in by_last.get(i, ()):
+                t = c.k
+                for s_, co in c.c.items():
+                    t += co * m[s_]
+                if t > 0:
                     ok = False
                     break
-                v += co * m[s]
-            if not ok or v > 0:
-                ok = False
-                break
-        if ok:
-            return m
+            if ok and rec(i + 1):
+                return True
+        m.pop(order[i], None)
+        return False
+
+    if rec(0):
+        return dict(m)
     return None
